@@ -525,5 +525,25 @@ theorem size_eq_byteLen (t : OpTable) (b : Block)
   unfold Block.size Block.byteLen
   rw [List.map_congr_left hs]
 
+/-- The instructions of the push / push_all events of a schedule, in order. -/
+def pushedOf (h : List Ev) : List Disasm.Item :=
+  h.flatMap (fun e => match e with | .push it => [it] | .pushAll its => its | .take => [] | .finish => [])
+
+theorem step_fed (t : OpTable) (r : Run) (e : Ev) : (step t r e).fed = r.fed ++ pushedOf [e] := by
+  cases e with
+  | push it => simp [step, pushedOf]
+  | pushAll its => simp [step, pushedOf]
+  | take => simp [step, pushedOf]
+  | finish =>
+    simp only [step]
+    split <;> simp [pushedOf]
+
+theorem foldl_fed (t : OpTable) : ∀ (h : List Ev) (r : Run),
+    (h.foldl (step t) r).fed = r.fed ++ pushedOf h
+  | [], r => by simp [pushedOf]
+  | e :: h, r => by
+    rw [List.foldl_cons, foldl_fed t h (step t r e), step_fed]
+    simp [pushedOf]
+
 end Blocks
 end EtkVerif
